@@ -48,7 +48,11 @@ ASSUMPTIONS = [
     "flow is asserted again only after the new flow has completed while being followed (DESIGN S note)",
     "the history ends where two top-level flows would be active side by side (a flow entered while another one waits and "
     "whose first statement is itself a wait)",
-    "leg 2 feeds generate_events the history built by leg 1 (same events, own uids)",
+    "leg 2 feeds generate_events the history built by leg 1 (same events, own uids); turns of more than 90 events skip leg 2 "
+    "(generate_events gives up after 100 events per turn) and histories are cut once they exceed 160 events (quadratic replay cost)",
+    "open findings C14-F13 (flow that ends inside its starting event is not completed) and C14-F14 (nested subflow call whose "
+    "inner subflow starts with a wait) are excluded by construction: a history stops where it would trigger one (counted in "
+    "coverage.counters.histories_cut_by_open_finding_*); replays/known/C14/*.json reproduce them",
 ]
 
 
@@ -66,7 +70,7 @@ F14_OPEN = True
 
 
 def budget(tier):
-    return 3000 if tier == "quick" else 25000
+    return 2400 if tier == "quick" else 25000
 
 
 # ---------------------------------------------------------------------------------------------
